@@ -1,5 +1,6 @@
 import CookModel.Lemmas.Text
 import CookModel.Analysis.Collector
+import CookModel.Lemmas.Blocks
 /-
   C03  No input makes a public entry point panic, overflow or hang.
 
@@ -70,5 +71,95 @@ theorem C03_blocks_no_trailing_newline (ts b rest : List Tok) (h : nextBlock ts 
 /-- `pull_line` always consumes at least one token: the block splitter terminates -/
 theorem C03_pull_line_progress (ts : List Tok) (li : LineInfo) (rest : List Tok)
     (h : pullLine ts = some (li, rest)) : rest.length < ts.length := pullLine_shorter ts li rest h
+
+/-! ### the fuel of the block splitter never runs out
+
+  The three loops of `next_block` are modelled with fuel.  `C03_*_fuel_suffices`: any fuel at least
+  the length of the remaining stream gives the same result as the fuel the model uses (so the result
+  is the fuel-free limit); `C03_splitter_terminates`: with the fuel the model uses, each loop
+  satisfies its fuel-free recursion equation, i.e. a loop only ever stops for the reason the Rust
+  loop stops (end of stream / non-empty line / marker / empty line), never because fuel ran out. -/
+
+theorem C03_skip_fuel_suffices (ts : List Tok) (f : Nat) (h : ts.length ≤ f) :
+    skipEmptyLines f ts = skipEmptyLines (ts.length + 1) ts :=
+  blocks_skip_fuel f (ts.length + 1) ts h (by omega)
+
+theorem C03_more_fuel_suffices (ts : List Tok) (f : Nat) (h : ts.length ≤ f) :
+    moreLines f ts = moreLines (ts.length + 1) ts :=
+  blocks_more_fuel f (ts.length + 1) ts h (by omega)
+
+/-- the list of blocks does not depend on the fuel once it is at least the stream length -/
+theorem C03_blocks_fuel_suffices (ts : List Tok) (f : Nat) (h : ts.length ≤ f) :
+    allBlocks f ts = allBlocks (ts.length + 1) ts :=
+  blocks_all_fuel f (ts.length + 1) ts h (by omega)
+
+/-- The splitter terminates for the right reason.  With the fuel used by `nextBlock`/`pullEvents`:
+    the block list is `next_block` iterated until it returns `None`; `None` is returned exactly when
+    only blank tokens are left (the stream is exhausted of blocks); every step strictly shortens the
+    stream; and the two inner loops obey their fuel-free recursion. -/
+theorem C03_splitter_terminates (ts : List Tok) :
+    (allBlocks (ts.length + 1) ts = match nextBlock ts with
+      | none => []
+      | some (b, rest) => b :: allBlocks (rest.length + 1) rest) ∧
+    (nextBlock ts = none ↔ ∀ t ∈ ts, isEmptyTok t.kind = true) ∧
+    (∀ b rest, nextBlock ts = some (b, rest) → rest.length < ts.length) ∧
+    (skipEmptyLines (ts.length + 1) ts = match pullLine ts with
+      | none => none
+      | some (li, rest) => if li.isEmpty then skipEmptyLines (rest.length + 1) rest else some (li, rest)) ∧
+    (moreLines (ts.length + 1) ts =
+      if isSingleLineMarker ts.head? then ([], ts) else
+      match pullLine ts with
+      | none => ([], ts)
+      | some (li, rest) =>
+        if li.isEmpty then ([], rest) else
+        (li.toks ++ (moreLines (rest.length + 1) rest).1, (moreLines (rest.length + 1) rest).2)) :=
+  ⟨blocks_all_unfold ts, blocks_next_none ts,
+   fun b rest h => (blocks_next_some ts b rest h).choose_spec.choose_spec.2.2.2.2,
+   blocks_skip_unfold ts, blocks_more_unfold ts⟩
+
+/-- the emptiness test on the trimmed block in `next_block` (`return None`) is dead code: a block
+    that starts with a non-empty line is never empty after trimming -/
+theorem C03_trimmed_block_never_empty (ts : List Tok) :
+    nextBlock ts = match skipEmptyLines (ts.length + 1) ts with
+      | none => none
+      | some (li, rest) =>
+        some (trimTrailingNewlines (li.toks ++ (blockMore li rest).1), (blockMore li rest).2) :=
+  blocks_next_eq ts
+
+/-- Every block handed to `BlockParser::new` is a non-empty contiguous slice of the token stream.
+    Hence, if the stream's spans are adjacent from `off` (they are: `C04_tokens_contiguous`), the
+    block's spans are adjacent starting at its first token (`debug_assert_adjacent!`), and all its
+    spans lie inside `[off, off + len]` (`tokens out of input bounds`). Holds for any fuel. -/
+theorem C03_blocks_adjacent (off : Nat) (ts : List Tok) (h : Chain off ts) (f : Nat) :
+    ∀ b ∈ allBlocks f ts,
+      (∃ pre post, ts = pre ++ b ++ post) ∧
+      (∃ t r, b = t :: r ∧ Chain t.start b) ∧
+      (∀ u ∈ b, off ≤ u.start ∧ u.stop ≤ off + utf8Len (ts.flatMap (·.text))) := by
+  intro b hb
+  obtain ⟨hne, pre, post, e⟩ := blocks_all_infix f ts b hb
+  refine ⟨⟨pre, post, by rw [e]; simp⟩, ?_, ?_⟩
+  · cases b with
+    | nil => exact absurd rfl hne
+    | cons t r =>
+      refine ⟨t, r, rfl, ?_⟩
+      rw [e] at h
+      exact blocks_chain_head _ t r (blocks_chain_infix off pre (t :: r) post h)
+  · intro u hu
+    exact blocks_chain_bounds off ts h u (by rw [e]; simp [hu])
+
+/-- instance for the stream `PullParser` splits: the first token of every block starts strictly
+    before the end of the input and the last one ends inside it (the two `debug_assert!`s of
+    `BlockParser::new`, with `off` the front-matter offset) -/
+theorem C03_blocks_in_bounds (cs : CharSpec) (off : Nat) (s : List Char) :
+    ∀ b ∈ allBlocks ((lexFrom cs off s).length + 1) (lexFrom cs off s),
+      ∀ u ∈ b, u.start < off + utf8Len s ∧ u.stop ≤ off + utf8Len s := by
+  intro b hb u hu
+  have h := (C03_blocks_adjacent off _ (lexFrom_chain cs off s) _ b hb).2.2 u hu
+  rw [lexFrom_tile] at h
+  obtain ⟨_, pre, post, e⟩ := blocks_all_infix _ _ b hb
+  have hmem : u ∈ lexFrom cs off s := by rw [e]; simp [hu]
+  have hpos := utf8Len_pos (lexFrom_nonempty cs off s u hmem)
+  simp only [Tok.stop] at h ⊢
+  omega
 
 end Cook
